@@ -452,7 +452,7 @@ def _run(ctx, drv, mon, workdir, t0):
     scale = 6.0 if thorough else 1.0
     if ctx.broken:
         scale *= 2
-    timeout = 20 if thorough else 10
+    timeout = 20 if thorough else 6
     sym = Symbolizer(drv)
     try:
         parser_y = open(os.path.join(common.REPO, "front", "parser.y")).read().split("\n")
@@ -596,6 +596,8 @@ def _run(ctx, drv, mon, workdir, t0):
     ctx.coverage["lsan_second_opinion"] = ls_counts
     ctx.coverage["monitor_vs_lsan_disagreements"] = disagree
     ctx.coverage["distinct_failure_mechanisms"] = sorted(findings) + sorted(lfind)
+    ctx.coverage["timeouts_first"] = [{"case": c.id, "class": c.cls, "input": c.data[:300].decode("latin-1")}
+                                      for c in cases if obs.get(c.id) is not None and obs[c.id].status == "timeout"][:4]
     ctx.coverage["failing_traces"] = {"total": len(failing), "not_re-run_for_attribution": unattributed}
     ctx.coverage["timing_s"] = {"proofs+builds+generate": round(t_gen - t0, 1), "memdrive+monitor": round(t_run - t_gen, 1),
                                 "attribute+shrink": round(t_ls0 - t_run, 1), "lsan": round(time.time() - t_ls0, 1), "total": round(time.time() - t0, 1)}
